@@ -157,8 +157,14 @@ def gen_vcf(r, path, long_panel=False):
                     alts.append(a)
             gts = []
             for s in samples:
-                if r.random() < 0.12:
+                x_ = r.random()
+                if x_ < 0.1:
                     gts.append('./.')
+                elif x_ < 0.18:
+                    # half-missing call: one haplotype is not called, the other one is (either order)
+                    a_ = r.randint(0, nalt)
+                    sep_ = r.choice('|/')
+                    gts.append(f'.{sep_}{a_}' if r.random() < 0.5 else f'{a_}{sep_}.')
                 else:
                     a1, a2 = r.randint(0, nalt), r.randint(0, nalt)
                     if r.random() < 0.5:
@@ -193,6 +199,7 @@ def truth_for(rows, samples, select, ignore, phased):
             continue
         carriers = {}
         missing = False
+        half_missing = False
         multibase = False
         for s, gt in zip(samples, gts):
             if s not in sel:
@@ -201,6 +208,9 @@ def truth_for(rows, samples, select, ignore, phased):
                 missing = True
                 continue
             for tok in gt.replace('|', '/').split('/'):
+                if tok == '.':
+                    half_missing = True      # the called haplotype still counts
+                    continue
                 a = alleles[int(tok)]
                 if len(a) == 1:
                     carriers.setdefault(a, set()).add(s)
@@ -208,7 +218,9 @@ def truth_for(rows, samples, select, ignore, phased):
                     multibase = True
         ign = ignore is not None and any((ref, b) in ignore for b in carriers)
         clean = (not missing) and (not multibase) and len(carriers) >= 2 and not ign and len(sel) > 0
-        nothing = ign or (multibase and not missing) or (not missing and len(carriers) < 2)
+        # (with a half-missing call only the clean sites are decided: what a monomorphic / multi-base / ignored site with an uncalled
+        # haplotype should answer is left open)
+        nothing = (ign or (multibase and not missing) or (not missing and len(carriers) < 2)) and not half_missing
         out[(c, pos - 1)] = {'clean': clean, 'carriers': carriers, 'nothing': nothing}
     return out
 
